@@ -53,7 +53,9 @@ CHECKS["C18"] = dict(
 CHECKS["C17"] = dict(
     technique="TLA+ persistence model + durability rule (Durable.tla) evaluated by TLC at every crash point of "
               "system-call logs recorded with strace from a real process (DurableTrace.tla); implementation-shaped "
-              "model DurableImpl.tla model-checked; crash images computed by TLC materialised and recovered by the real store",
+              "model DurableImpl.tla model-checked; DurableConc.tla (concurrent setters: critical section of update_file, write jobs, refused "
+              "writes; group durability, liveness) model-checked and bound by barrier-released real threads under strace -f; crash images "
+              "computed by TLC materialised and recovered by the real store",
     category="fault_enumeration",
     text="Every prefix of the real system-call log (mkdir/open-truncate/write/fsync/close) of every set in several "
          "sequences is a crash point; at each TLC evaluates the rule over all allowed losses of unsynced data (none, all, "
@@ -77,12 +79,14 @@ CHECKS["C19"] = dict(
 
 CHECKS["C13"] = dict(
     technique="TLA+ model of the framing reader (Wire.tla) model-checked by TLC over every fragmentation; TLC-generated "
-              "fragmentations fed to the real StreamReader/stream_recv_msg and judged by TLC (WireTrace.tla); TLC-generated "
+              "fragmentations fed to the real StreamReader/stream_recv_msg and - with pauses of virtual time - to the listener of a real "
+              "NetworkClient in its server role, judged by TLC (WireTrace.tla); TLC-generated "
               "remote-operation histories (Remote.tla) executed against a live loopback server and judged by TLC against "
               "the shared-environment spec IpcAbs.tla (RemoteTrace.tla)",
     text="(i) every way of cutting the real byte stream of 1-3 frames into <= 3 reads, ending at every byte-boundary class, is "
          "explored on the model and executed on the real reader: delivered = the frames, intact, one by one, in order; "
-         "(ii) histories of f(text), f(:fn,args), proxies and remote dictionary get/set over a transportable universe "
+         "(ii) histories of f(text), f(:fn,args) incl. nilads, proxies and remote dictionary get/set issued by one or two client "
+         "interpreters over a transportable universe "
          "(numbers, strings, symbols, characters, nested lists, dictionaries, :undefined) run against a live server; "
          "client-side results must be those of one shared server environment; :undefined must still test as undefined.",
     note="Trusted: TLC, asyncio.StreamReader, the canonicalisation of results. pickle fidelity is observed, not modelled. "
@@ -162,12 +166,13 @@ CHECKS["C03"] = dict(
 CHECKS["C04"] = dict(
     technique="TLA+ transition system KgMachine.tla over a closed statement alphabet, explored by TLC (frame condition as action "
               "property, behaviours emitted); every behaviour replayed step by step into two real interpreters (A: whole history, "
-              "B: fresh + specification pre-state) with result and full variable snapshot compared to the specification's",
+              "B: fresh + specification pre-state) with result and full variable snapshot compared to the specification's; a value that "
+              "A and B share but the specification does not give is re-evaluated in a forked child of a process that has evaluated nothing",
     text="History-independence and value semantics are decided by executing each of ~2.7k (thorough ~40k) statement histories twice: "
          "an interpreter that carries the whole history (parse cache, compiled caches, NumPy buffers possibly shared between "
          "variables, literals inside function bodies) and a fresh interpreter per step loaded with the specification's pre-state "
          "must both give the specification's value and leave exactly the specification's environment.",
-    note="Trusted: TLC, KgEval/KgVerbs transcription, the snapshot of interpreter variables. Alphabet: 29 statements over 5 variables "
+    note="Trusted: TLC, KgEval/KgVerbs transcription, the snapshot of interpreter variables. Alphabet: 52 statements over 5 variables "
          "(assign, alias, amend of copies / takes / reverses / reshapes / transposes / rows, join, drop, functions with list and "
          "dictionary literals, +/). Module switches and tables not included yet.",
     design_ref="DESIGN.md section 5 C04")
